@@ -44,6 +44,7 @@ func main() {
 	harness.Main("C09", "exploration",
 		harness.Layer{Name: "stress", Run: func(h *harness.H) { stress(h, "stress") }},
 		harness.Layer{Name: "delgc", Run: func(h *harness.H) { stress(h, "delgc") }},
+		harness.Layer{Name: "fdlimit", Run: fdlimit},
 	)
 }
 
